@@ -91,6 +91,10 @@ def cos_theta_spec(i: int, j: int) -> RF:
 # ---------------------------------------------------------------------------- extraction
 
 
+class WrongBranch(ExtractionError):
+    """The angle is computed with a function that is not the inverse cosine on [0, pi]."""
+
+
 class Angles:
     def __init__(self, tree: Tree) -> None:
         self.tree = tree
@@ -114,10 +118,27 @@ class Angles:
             a = te.single_atom(expr * sign)
             if a is not None and te.is_app(a) and te.apps[a].cls == "acos":
                 return sign, te._rf(te.apps[a].args[0])
+            if a is not None and te.is_app(a) and te.apps[a].cls == "atan2" and len(te.apps[a].args) == 2:
+                # atan2(sqrt(1 - c^2), c) == acos(c) on [-1, 1]
+                y, x = (te._rf(v) for v in te.apps[a].args)
+                if equal(y * y, RF.const(1) - x * x):
+                    return sign, x
+            if a is not None and te.is_app(a) and te.apps[a].cls == "atan" and len(te.apps[a].args) == 1:
+                # atan(sqrt(1 - c^2)/c) agrees with acos(c) only for c > 0; for an obtuse angle it is off by pi
+                raise WrongBranch(f"angle computed with the single-argument atan: `{expr!r:.100}` loses the quadrant (acos(c) - pi for c < 0)")
         raise ExtractionError(f"angle expression is not +-acos(...): {expr!r:.120}")
 
     def unfolded(self, v: RF) -> RF:
         return self.te.unfold(v, {"Kallen"})
+
+    def cos_or_report(self, ctx, tree, fn, key: str, expr: RF):
+        """cos_of, but an angle computed with a wrong inverse function is reported as a violation."""
+        try:
+            return self.cos_of(expr)
+        except WrongBranch as exc:
+            ctx.violation("R-TERM", key + "::inverse-cosine", tree.loc(fn.node), f"{fn.qual.split('::')[-1]}: {exc}",
+                          "the angle must be acos(c) (or atan2(sqrt(1 - c^2), c)): with atan the cyclic sum rule fails by pi wherever an alignment angle is obtuse")
+            return None
 
 
 def relabel(v: RF, te: TermEval, perm: dict[int, int]) -> RF:
@@ -265,7 +286,10 @@ def check_zeta_geometry(ctx: Check, tree: Tree, A: Angles, exprs: dict) -> None:
     for i, j, k in itertools.product((1, 2, 3), repeat=3):
         if j == k:
             continue
-        sign, cosz = A.cos_of(exprs[(i, j, k)])
+        got = A.cos_or_report(ctx, tree, fn, f"{fn.qual}::geometry::({i},{j},{k})", exprs[(i, j, k)])
+        if got is None:
+            continue
+        sign, cosz = got
         cosz = A.unfolded(cosz)
         want = cos_zeta_spec(i, j, k)
         ok = equal(cosz, want)
